@@ -134,6 +134,38 @@ Theorem C05_cross_map_pairs : forall n a b, (In [a; b] (pairs_unique n) <-> (a <
 Proof. exact cross_map_pairs. Qed.
 Print Assumptions C05_cross_map_pairs.
 
+(** usefulness criterion.  [uc_mean bv epgc parents q] is the progeny mean as coded (epgc . bv[parents]); the contribution
+    vector [epgc] is an argument of the model.  For ANY contribution vector the latent vector of a UC problem whose table
+    was built from (bv, epgc, intensity, sigma) is  -(1/k) sum over the selected crosses of (weighted mean + intensity * sigma),
+    in every decision encoding ... *)
+Theorem C05_uc_latent_is_weighted_mean_plus_isigma : forall bv epgc si sigmas t xmap s,
+  length sigmas = length xmap -> in_range (length xmap) s -> s <> [] ->
+  let fd := FLin false t (ucmat_of bv epgc si sigmas t xmap) in let n := length xmap in
+  let want := Some (map Ex (uc_latent_def bv epgc si sigmas t xmap s)) in
+  res_eq (latent n fd (DSub s)) want /\ res_eq (latent n fd (DVec (counts n s))) want /\
+  res_eq (latent n fd (DVec (contrib_subset n s))) want /\ (NoDup s -> res_eq (latent n fd (DVec (indicator n s))) want).
+Proof. exact uc_latent_encodings. Qed.
+Print Assumptions C05_uc_latent_is_weighted_mean_plus_isigma.
+(** ... where, for contributions summing to one, the weighted term is a mean: it moves with the parents' breeding values
+    and equals their common value when they agree *)
+Theorem C05_uc_progeny_mean_is_a_mean : forall bv bv' epgc parents q c b, length epgc = length parents -> qsum epgc == 1 ->
+  ((forall i, In i parents -> mget bv' i q == mget bv i q + c) -> uc_mean bv' epgc parents q == uc_mean bv epgc parents q + c) /\
+  ((forall i, In i parents -> mget bv i q == b) -> uc_mean bv epgc parents q == b).
+Proof. intros bv bv' epgc parents q c b HL H1. split; [apply uc_mean_is_mean | apply uc_mean_const]; assumption. Qed.
+Print Assumptions C05_uc_progeny_mean_is_a_mean.
+(** corollary: with uniform contributions 1/m (two-way, dihybrid, four-way crosses) it is the plain mean of the m parents *)
+Theorem C05_uc_uniform_is_plain_mean : forall bv m si sigmas t xmap s,
+  length sigmas = length xmap -> in_range (length xmap) s -> s <> [] -> (0 < m)%nat -> (forall x, In x s -> length (nth x xmap []) = m) ->
+  res_eq (latent (length xmap) (FLin false t (ucmat_of bv (uniform m) si sigmas t xmap)) (DSub s))
+         (Some (map Ex (map (fun q => - (1 / nq (length s)) * sumf (fun x => plain_mean bv (nth x xmap []) q + si * nth q (nth x sigmas []) 0) s) (seq 0 t)))).
+Proof. exact uc_latent_uniform. Qed.
+Print Assumptions C05_uc_uniform_is_plain_mean.
+(** and with the three-way contributions (recurrent, female, male) = (1/2, 1/4, 1/4) it is NOT the plain mean *)
+Theorem C05_uc_weighted_is_not_plain_mean :
+  ~ uc_mean [[4]; [0]; [0]] [1#2; 1#4; 1#4] [0; 1; 2]%nat 0 == plain_mean [[4]; [0]; [0]] [0; 1; 2]%nat 0.
+Proof. exact uc_weighted_is_not_plain. Qed.
+Print Assumptions C05_uc_weighted_is_not_plain_mean.
+
 (** non-vacuity: concrete values meeting the hypotheses used above *)
 Example C05_hyps_satisfiable :
   has_vec (FOcs 1 [[1]; [2]; [3]] [[1; 1#2; 0]; [0; 1; 1#4]; [0; 0; 1]]) = true /\ in_range 3 [2; 0]%nat /\ [2; 0]%nat <> [] /\ NoDup [2; 0]%nat
@@ -150,4 +182,15 @@ Proof.
   split; [intros j Hj; destruct j as [|[|j]]; [vm_compute; split; discriminate | vm_compute; split; discriminate | lia]|].
   split; [intros j q Hj Hq; destruct j as [|[|j]]; [| |lia]; (destruct q as [|q]; [reflexivity | lia])|].
   vm_compute. reflexivity.
+Qed.
+
+Example C05_uc_hyps_satisfiable :
+  let xmap := [[0; 1; 2]; [2; 0; 1]]%nat in let sigmas := [[1#2]; [1]] in let epgc := [1#2; 1#4; 1#4] in
+  length sigmas = length xmap /\ in_range (length xmap) [1; 0]%nat /\ [1; 0]%nat <> [] /\ NoDup [1; 0]%nat /\ length epgc = 3%nat /\ qsum epgc == 1
+  /\ qsum (uniform 4) == 1 /\ (forall x, In x [1; 0]%nat -> length (nth x xmap []) = 3%nat)
+  /\ res_eq (latent 2 (FLin false 1 (ucmat_of [[4]; [0]; [8]] epgc 2 sigmas 1 xmap)) (DSub [1; 0]%nat)) (Some [Ex (- 6)]).
+Proof.
+  cbv zeta. split; [reflexivity|]. split; [intros i [<-|[<-|[]]]; cbn; lia|]. split; [discriminate|]. split; [repeat constructor; cbn; intuition lia|].
+  split; [reflexivity|]. split; [reflexivity|]. split; [apply uniform_total; lia|].
+  split; [intros x [<-|[<-|[]]]; reflexivity|]. vm_compute. repeat constructor.
 Qed.
